@@ -121,7 +121,7 @@ def roster(consts, ids, extra=None):
     return out
 
 
-def build_wows(v, rng, join=True, battle_end=True, map_name='spaces/16_OC_bees_to_honey', n_players=3, roster_extra=None):
+def build_wows(v, rng, join=True, battle_end=True, map_name='spaces/16_OC_bees_to_honey', n_players=3, roster_extra=None, recreate=False):
     """-> (Battle, version string for the open block).  v: a directory name under clients/wows/versions"""
     ver = v.split('_'); new = tuple(map(int, ver[:3])) >= (12, 6, 0)
     d = os.path.join(common.REPO, 'replay_unpack', 'clients', 'wows', 'versions', v)
@@ -159,6 +159,21 @@ def build_wows(v, rng, join=True, battle_end=True, map_name='spaces/16_OC_bees_t
         return val
     for vid in (V1, V2):
         b.create(vid, 'Vehicle', [('crewModifiersCompactParams', crew)] if 'crewModifiersCompactParams' in vnames else [])
+    if recreate:
+        # ids that are created, updated and created AGAIN (with another value, with a partial property set, as another type): afterwards only
+        # the last creation and what followed it may be visible - through the version's own controller (create_entity / entities)
+        neutral = [n for n in b.md.names if n not in ('Avatar', 'Vehicle', 'BattleLogic') and b.md.ent[n]['client']]
+        if neutral:
+            t1 = neutral[0]; t2 = neutral[-1]
+            p1 = b.md.ent[t1]['client'][0][0]
+            keep = lambda t, x: x
+            b.create(700, t1, [(p1, keep)])
+            i1 = 0; ty1 = b.md.ent[t1]['client'][0][1]
+            b.pkt('EntityProperty', struct.pack('<II', 700, i1) + synth.binstream(gen_types.wire_of(ty1, default_value(ty1, rng))))
+            b.create(700, t1, [(pn, keep) for pn, _ in b.md.ent[t1]['client'][1:2]])        # re-created WITHOUT the first property
+            b.create(701, t1, [(p1, keep)])
+            b.create(701, t2, [(b.md.ent[t2]['client'][-1][0], keep)])                       # re-created as another type
+            b.create(702, t2, []); b.create(702, t2, [(pn, keep) for pn, _ in b.md.ent[t2]['client'][:2]])
     pk = lambda obj: (lambda t: ('s', pickle.dumps(obj, protocol=2)))
     am = {x['name']: x for x in b.md.ent['Avatar']['methods']}
     vm = {x['name']: x for x in b.md.ent['Vehicle']['methods']}
